@@ -566,7 +566,7 @@ def check_variant_stats(mon, v, d, al, mi, UA, api, w, rng):
     else:
         got = {k: int(x) for k, x in c.items()}
         if got != dict(exp):
-            key = f"{api}/counts-duplicate-user-alleles" if dup else f"{api}/counts"
+            key = "variant/counts-duplicate-user-alleles" if dup else f"{api}/counts"
             mon.bad(key, f"{w}: counts()={got} expected {dict(exp)} (genotypes {d['g'].tolist()}, alleles {alleles})")
     # ---- frequencies
     rm = rng.choice([None, False, True])
@@ -584,7 +584,7 @@ def check_variant_stats(mon, v, d, al, mi, UA, api, w, rng):
         same = set(f) == set(expf) and all(
             (math.isnan(expf[a]) and math.isnan(float(f[a]))) or abs(float(f[a]) - expf[a]) <= 1e-12 for a in expf)
         if not same:
-            key = f"{api}/frequencies-duplicate-user-alleles" if dup else f"{api}/frequencies"
+            key = "variant/counts-duplicate-user-alleles" if dup else f"{api}/frequencies"
             mon.bad(key, f"{w}: frequencies(remove_missing={rm})={dict(f)} expected {expf}")
     # ---- states
     mds = rng.choice([None, None, "N", "?", "missing", "", "A", "T", 5])
